@@ -60,7 +60,7 @@ def node_meta(ast, limit=40):
     stack = [ast]
     while stack and len(out) < limit:
         a = stack.pop()
-        if not isinstance(a, claripy.ast.Base) or a.op in ("FPV", "FPS", "StringV", "StringS"):
+        if not isinstance(a, claripy.ast.Base) or isinstance(a, claripy.ast.String) or a.op in ("FPV", "StringV"):
             continue
         if id(a) in _seen_nodes:
             continue
@@ -210,9 +210,9 @@ def metaops_events(job, rng, out):
         leaves = [l for l in a.leaf_asts() if l.op == "BVS"]
         if leaves:
             l = rng.choice(leaves)
-            attempt(lambda: a.replace(l, claripy.BVV(rng.getrandbits(l.length), l.length)))
-            attempt(lambda: a.replace(l, claripy.BVS("q", l.length, explicit_name=True) + 1))
-            attempt(lambda: a.replace(l, l.annotate(an)))
+            attempt(lambda: claripy.replace(a, l, claripy.BVV(rng.getrandbits(l.length), l.length)))
+            attempt(lambda: claripy.replace(a, l, claripy.BVS("q", l.length, explicit_name=True) + 1))
+            attempt(lambda: claripy.replace(a, l, l.annotate(an)))
         attempt(lambda: claripy.simplify(a))
         attempt(lambda: claripy.backends.z3._abstract(claripy.backends.z3.convert(a)))
         attempt(lambda: a.canonicalize()[2])
@@ -221,6 +221,43 @@ def metaops_events(job, rng, out):
         for r in results:
             tr = TM.ser(r)
             ev = {"k": "op", "w": tr, "how": "metaop", "out": "ok", "r": tr, "vars": [], "asgs": [], "z3": [],
+                  "nodes": node_meta(r), "cerr": False, "gi": i}
+            if ev["nodes"]:
+                out.write(ev, nontrivial_key=[tr], outcome="ok", sample={"result": tr})
+
+
+def fpmeta_events(job, rng, out):
+    """C05 for floating-point nodes: width / variables / depth of FP operation trees before and after the Z3 round trip"""
+    import claripy
+    RMs = [claripy.fp.RM.RM_NearestTiesEven, claripy.fp.RM.RM_TowardsZero]
+    for i in range(job["n"]):
+        fs = rng.choice([claripy.FSORT_DOUBLE, claripy.FSORT_FLOAT])
+        f = claripy.FPS("f", fs, explicit_name=True)
+        g = claripy.FPS("g", fs, explicit_name=True)
+        k = claripy.FPV(rng.choice([0.0, 1.5, -2.0, 1e10]), fs)
+        rm = rng.choice(RMs)
+        base = [claripy.fpAdd(rm, f, g), claripy.fpMul(rm, f, k), claripy.fpSub(rm, g, f), claripy.fpDiv(rm, f, g),
+                claripy.fpNeg(f), claripy.fpAbs(g), claripy.fpSqrt(rm, f),
+                claripy.fpToFP(rm, f, claripy.FSORT_FLOAT if fs is claripy.FSORT_DOUBLE else claripy.FSORT_DOUBLE),
+                claripy.fpToFP(rm, claripy.BVS("b", fs.length, explicit_name=True), fs),
+                claripy.fpToFP(claripy.BVS("b", fs.length, explicit_name=True), fs),
+                claripy.fpToIEEEBV(claripy.fpAdd(rm, f, g)), claripy.fpToSBV(rm, claripy.fpMul(rm, f, g), 32),
+                claripy.fpToUBV(rm, f, 8), claripy.fpLT(claripy.fpAdd(rm, f, g), k), claripy.fpEQ(f, g),
+                claripy.fpIsNaN(claripy.fpDiv(rm, f, g)), claripy.If(claripy.fpGT(f, k), f, g),
+                claripy.fpAdd(rm, claripy.fpMul(rm, f, g), k)]
+        e = rng.choice(base)
+        results = [e]
+
+        def attempt(fn):
+            o, r = guarded(fn)
+            if o == "ok" and isinstance(r, claripy.ast.Base):
+                results.append(r)
+        attempt(lambda: claripy.simplify(e))
+        attempt(lambda: claripy.backends.z3._abstract(claripy.backends.z3.convert(e)))
+        attempt(lambda: claripy.simplify(e == e) if isinstance(e, claripy.ast.FP) else claripy.simplify(claripy.Not(e)) if isinstance(e, claripy.ast.Bool) else claripy.simplify(e + 1))
+        for r in results:
+            tr = TM.ser(r)
+            ev = {"k": "op", "w": tr, "how": "fpmeta", "out": "ok", "r": tr, "vars": [], "asgs": [], "z3": [],
                   "nodes": node_meta(r), "cerr": False, "gi": i}
             if ev["nodes"]:
                 out.write(ev, nontrivial_key=[tr], outcome="ok", sample={"result": tr})
@@ -262,6 +299,10 @@ def main():
     out = ShardWriter(sys.argv[2], job.get("shard", 5000))
     if job["gen"] == "metaops":
         metaops_events(job, rng, out)
+        out.close()
+        return
+    if job["gen"] == "fpmeta":
+        fpmeta_events(job, rng, out)
         out.close()
         return
     for i, t in enumerate(gen_terms(job, rng)):
